@@ -29,7 +29,8 @@ def ser(o):
     if isinstance(o, bool):
         return b"true" if o else b"false"
     if isinstance(o, Name):
-        return b"/" + o.encode("latin-1")
+        # ISO 32000-1 7.3.5: white space, delimiters, '#' and bytes outside 33..126 are written as #xx
+        return b"/" + b"".join(bytes((b,)) if 33 <= b <= 126 and b not in b"()<>[]{}/%#" else b"#%02X" % b for b in o.encode("latin-1"))
     if isinstance(o, int):
         return str(o).encode()
     if isinstance(o, float):
